@@ -424,6 +424,10 @@ pub use crate::util::alloc::allocator::{
     get_maximum_aligned_size_inner,
 };
 pub use crate::util::treadmill::TreadMill;
+pub use crate::plan::verif_hooks::{Barrier, BarrierSemantics, ObjectBarrier};
+pub use crate::policy::immix::immixspace::verif_hooks::AttemptMark;
+pub use crate::policy::largeobjectspace::verif_hooks::LosTestAndMark;
+pub use crate::policy::markcompactspace::MarkCompactSpace;
 
 use crate::util::metadata::side_metadata::{SideMetadataContext, SideMetadataSpec};
 use crate::util::Address;
